@@ -561,8 +561,11 @@ class MotionGen(object):
         if not self.excluded(inx, iny) or self.min_border_distance(inx, iny) < mm:
             return
         axis = rng.choice(["X", "Y"])
+        # hypotheses about a wrongly remembered pre-episode position: the other axis taken as 0,
+        # the homed axis not reset, the other axis taken from the (virtual) in-region position
         disp = rng.choice([(0, y0) if axis == "X" else (x0, 0),
-                           (-x0, 0) if axis == "X" else (0, -y0)])
+                           (-x0, 0) if axis == "X" else (0, -y0),
+                           (0, y0 - iny) if axis == "X" else (x0 - inx, 0)])
         # T2: outside every region, but inside `reg` when displaced
         t2 = (inx - disp[0], iny - disp[1])
         # T1: any exit point outside, and outside when displaced too (so that T2 decides)
